@@ -28,7 +28,7 @@ ASSUMPTIONS = [
     "'equal parameters' means == on the validated param-class instances",
     "exported name = hdl21.qualname.qualname(module), the name the exporter uses",
 ]
-REQUIRED_COUNTERS = ["pairs.equal", "pairs.unequal", "export.checked", "process.compared"]
+REQUIRED_COUNTERS = ["pairs.equal", "pairs.unequal", "export.checked", "process.compared", "delivery.checked"]
 MIN_EVALS = 300
 MIN_NONTRIVIAL = 100
 
@@ -45,7 +45,7 @@ def safe_eq(a, b):
         return a is b
 
 
-def analyse(rec, events, runs, label):
+def analyse(rec, events, runs, label, gens=None):
     from hdl21.qualname import qualname
 
     ok = [e for e in events if "module" in e]
@@ -73,6 +73,16 @@ def analyse(rec, events, runs, label):
                 elif qualname(a["module"]) == qualname(b["module"]):
                     rec.violation("unequal-params-one-name", f"{g}: unequal parameters {a['kw']} and {b['kw']} give two Modules with one exported "
                                                             f"name '{qualname(a['module'])}'", case=case)
+    # the body that produced a call's module was run with the parameters of that call (or equal ones)
+    seen = (gens or {}).get("__seen__")
+    if seen is not None:
+        for e in ok:
+            if e["form"] == "inner":
+                continue
+            rec.count("delivery.checked")
+            if not any(safe_eq(p, e["params"]) for p in seen.get(e["gen"], [])):
+                rec.violation("parameters-not-delivered", f"{e['gen']}({e['kw']}) ({e['form']}) returned a module although the generator body was never run "
+                                                          f"with these parameters", case={"kind": "delivery", "gen": e["gen"], "kw": e["kw"], "form": e["form"]})
     # body ran once per distinct parameter value
     for (g, prepr), n in runs.items():
         rec.count("bodies.counted")
@@ -131,7 +141,7 @@ def run(ctx, rec):
     nproc = 4 if ctx.quick else 16
     vs = ctx.seed * 100 + ctx.shard
     events, runs, gens = c09_prog.run_program(vs, 0, n)
-    analyse(rec, events, runs, f"s{ctx.shard}")
+    analyse(rec, events, runs, f"s{ctx.shard}", gens)
     # process independence: same values, different hash seeds and call orders
     maps = []
     for k in range(nproc):
